@@ -26,11 +26,12 @@ Proof.
   unfold PCT_MEDIAN_NUM, PCT_MEDIAN_DEN. repeat f_equal. lra.
 Qed.
 
-Lemma coverages_ok_RR box wh : coverages_ok RR box wh = true <-> 40 <= box /\ box < wh.
+Lemma coverages_ok_RR box wh :
+  coverages_ok RR box wh = true <-> BOX_COVERAGE_MIN_R <= box /\ box < wh.
 Proof.
   unfold coverages_ok. rewrite andb_true_iff, !negb_true_iff. cbn [nltb nleb RR].
-  rewrite Rltb_false, Rleb_false, qc_RR.
-  unfold BOX_COVERAGE_MIN_NUM, BOX_COVERAGE_MIN_DEN. lra.
+  rewrite Rltb_false, Rleb_false.
+  destruct consts_R_agree as (_ & _ & _ & _ & _ & _ & -> & _). tauto.
 Qed.
 
 (* w_lo < b_lo <= 30 < 50 < 70 <= b_hi < w_hi, all inside [0, 100] *)
@@ -518,10 +519,9 @@ End Mask.
 
 Theorem violin_kde_x_pinned_refuted :
   exists data npts u, (0 <= npts)%Z /\ length u = Z.to_nat (npts / 2) /\
-    violin_npoints 101 = npts /\
     length (violin_kde_x_pinned RR data npts u) <> Z.to_nat npts.
 Proof.
-  exists [1; 2; 3], 101%Z, (repeat 0 50). split; [lia|]. split; [reflexivity|]. split; [reflexivity|].
+  exists [1; 2; 3], 101%Z, (repeat 0 50). split; [lia|]. split; [reflexivity|].
   rewrite violin_kde_x_pinned_length; [|lia|reflexivity]. vm_compute. lia.
 Qed.
 
